@@ -409,6 +409,37 @@ class Stack:
             total = (total + 7) // 8 * 8
         return total
 
+    def sibling_order(self):
+        """the same stack over a DIFFERENT storage order (different on-disk tag, identical payload layout):
+        each must reject the other's files"""
+        import copy
+        if not any(l["kind"] in ORDER for l in self.layers):
+            return None
+        v = copy.deepcopy(self)
+        for i, l in enumerate(v.layers):
+            if l["kind"] in ORDER:
+                if l["kind"] == "strided":
+                    l["kind"] = "morton_t"
+                elif l["kind"] in ("morton_t", "morton_f"):
+                    l["kind"] = "hilbert" if self.n == 2 else "strided"
+                else:
+                    l["kind"] = "morton_f"
+                l["bmi2"] = l["kind"] == "morton_t"
+                ext = l["ext"]
+                if l["kind"] == "strided":
+                    ln = 1
+                    for e in ext:
+                        ln *= e
+                else:
+                    side = 1
+                    while side < max(ext):
+                        side *= 2
+                    ln = side ** len(ext)
+                if v.layers[i + 1]["kind"] == "array":
+                    v.layers[i + 1]["len"] = ln
+        v.retype()
+        return v if v.ok else None
+
     def make_exotic(self, rng):
         """IO checks only (no lookups): give real-typed configuration members values that do not survive a detour
         through another precision or a value-level normalisation: non-dyadic, float-subnormal, negative zero, huge"""
